@@ -198,7 +198,10 @@ def _run_history(case):
     clock = Clock()
     clock.install()
     try:
-        st = SqliteStorage(testing=True, filepath=path, enable_lazy_commit=case.get("lazy", True))
+        # the store is obtained the way an application obtains it: through Datastore, which passes the options on
+        from aw_datastore import Datastore
+
+        st = Datastore(SqliteStorage, testing=True, filepath=path, enable_lazy_commit=case.get("lazy", True)).storage_strategy
         refs = []
 
         def own_ids():
